@@ -335,6 +335,8 @@ class VerifyTask:
         self.config = config or Config()
         if c.max_paths:
             self.config.max_paths = c.max_paths
+        if getattr(c, "forall_range_check", True) is False:
+            self.config.forall_range_check = False
         self.ref = fn_override or SRC.resolve(c.target)
         self.used_contracts: set = set()
         self.inlined: set = set()
@@ -404,6 +406,15 @@ class VerifyTask:
         if p is None or not hasattr(p, "isinstance"):
             raise Unsupported(f"isinstance of opaque {obj.kind}")
         return p.isinstance(ip, st, obj, cls)
+
+    def opaque_binop(self, ip, st, op, a, b):
+        """`a <op> b` where an operand is an opaque individual: modelled by the protocol of its kind
+        (`binop(ip, st, op, a, b)`), e.g. the intersection of a child's sizing set with a constant set."""
+        o = a if isinstance(a, V.SOpaque) else b
+        p = PROTOCOLS.get(o.kind)
+        if p is None or not hasattr(p, "binop"):
+            raise Unsupported(f"binary op {type(op).__name__} on opaque {o.kind}")
+        return p.binop(ip, st, op, a, b)
 
     def opaque_hasattr(self, ip, st, obj, name):
         p = PROTOCOLS.get(obj.kind)
